@@ -8,7 +8,7 @@ Import ListNotations.
 Definition s_item (nm : ident) (fl : list (ident * ident)) : item :=
   let bfl := map (fun f => (ibytes (fst f), ibytes (snd f))) fl in
   {| it_toks := struct_toks (ibytes nm) bfl; it_need := 2 * length bfl + 3; it_fneed := 2 * length bfl + 4;
-     it_upd := fun f => add_struct f (struct_of (ibytes nm) bfl); it_text := struct_text (ibytes nm) bfl |}.
+     it_upd := fun f => add_struct f (struct_of (ibytes nm) bfl); it_text := struct_text (ibytes nm) bfl; it_blank := true |}.
 Definition s_x (nm : ident) (fl : list (ident * ident)) : xitem :=
   {| x_lex := [kwS; Wi nm; T1 123%N kOpenCu; NLx] ++ flat_map field_lex fl ++ [T1 125%N kCloseCu; NLx];
      x_lay := [([], kwS); (sp, Wi nm); (sp, T1 123%N kOpenCu); ([], NLx)] ++ flat_map field_layout fl ++ [([], T1 125%N kCloseCu); ([], NLx)] |}.
@@ -23,7 +23,7 @@ Proof.
   - intros g f tail c. cbn [s_item it_need it_toks it_upd]. eexists. split; [|
       replace (2 * length (map (fun f0 : ident * ident => (ibytes (fst f0), ibytes (snd f0))) fl) + 3 + g)
         with (S (2 * length (map (fun f0 : ident * ident => (ibytes (fst f0), ibytes (snd f0))) fl) + S (S g))) by lia; apply top_struct]. lia.
-  - intros g out nl tail c. cbn [s_item it_fneed it_toks it_text]. eexists. split; [|
+  - intros g out nl tail c. cbn [s_item it_fneed it_toks it_text it_blank]. rewrite andb_true_r. eexists. split; [|
       replace (2 * length (map (fun f0 : ident * ident => (ibytes (fst f0), ibytes (snd f0))) fl) + 4 + g)
         with (S (S (2 * length (map (fun f0 : ident * ident => (ibytes (fst f0), ibytes (snd f0))) fl) + S (S g)))) by lia; apply fmt_top_struct]. lia.
   - pose proof (defs_toks [d] Hd) as H. unfold d in H. rewrite defs_lex_S0 in H. cbn [map dall flat_map bdn bd_toks repeat] in H. rewrite ?app_nil_r in H. exact H.
@@ -41,7 +41,7 @@ Qed.
 Definition m_item (nm : ident) (fl : list mfdef) : item :=
   let bfl := map bmf fl in
   {| it_toks := message_toks (ibytes nm) bfl; it_need := 2 * length bfl + 3; it_fneed := 2 * length bfl + 4;
-     it_upd := fun f => add_message f (message_of (ibytes nm) bfl); it_text := message_text (ibytes nm) bfl |}.
+     it_upd := fun f => add_message f (message_of (ibytes nm) bfl); it_text := message_text (ibytes nm) bfl; it_blank := true |}.
 Definition m_x (nm : ident) (fl : list mfdef) : xitem :=
   {| x_lex := [kwM; Wi nm; T1 123%N kOpenCu; NLx] ++ flat_map mfield_lex fl ++ [T1 125%N kCloseCu; NLx];
      x_lay := [([], kwM); (sp, Wi nm); (sp, T1 123%N kOpenCu); ([], NLx)] ++ flat_map mfield_layout fl ++ [([], T1 125%N kCloseCu); ([], NLx)] |}.
@@ -57,7 +57,7 @@ Proof.
   constructor.
   - intros g f tail c. cbn [m_item it_need it_toks it_upd]. eexists. split; [|
       replace (2 * length (map bmf fl) + 3 + g) with (S (2 * length (map bmf fl) + S (S g))) by lia; apply (top_message _ _ _ _ _ _ Hm)]. lia.
-  - intros g out nl tail c. cbn [m_item it_fneed it_toks it_text]. eexists. split; [|
+  - intros g out nl tail c. cbn [m_item it_fneed it_toks it_text it_blank]. rewrite andb_true_r. eexists. split; [|
       replace (2 * length (map bmf fl) + 4 + g) with (S (S (2 * length (map bmf fl) + S (S g)))) by lia; apply fmt_top_message]. lia.
   - pose proof (defs_toks [d] Hd) as H. unfold d in H. rewrite defs_lex_M0 in H. cbn [map dall flat_map bdn bd_toks repeat] in H. rewrite ?app_nil_r in H. exact H.
   - pose proof (defs_lex_ok [d] Hd) as H. unfold d in H. rewrite defs_lex_M0 in H. exact H.
@@ -234,7 +234,7 @@ Definition em_layout (m : edef) : list (bytes * lexeme) :=
 Definition e_item (nm : ident) (ml : list edef) : item :=
   let bml := map bem ml in
   {| it_toks := enum_toks (ibytes nm) bml; it_need := 2 * length bml + 3; it_fneed := 2 * length bml + 4;
-     it_upd := fun f => add_enum f (enum_of (ibytes nm) bml); it_text := enum_text (ibytes nm) bml |}.
+     it_upd := fun f => add_enum f (enum_of (ibytes nm) bml); it_text := enum_text (ibytes nm) bml; it_blank := true |}.
 Definition e_x (nm : ident) (ml : list edef) : xitem :=
   {| x_lex := [kwE; Wi nm; T1 123%N kOpenCu; NLx] ++ flat_map em_lex ml ++ [T1 125%N kCloseCu; NLx];
      x_lay := [([], kwE); (sp, Wi nm); (sp, T1 123%N kOpenCu); ([], NLx)] ++ flat_map em_layout ml ++ [([], T1 125%N kCloseCu); ([], NLx)] |}.
@@ -248,7 +248,7 @@ Proof.
   intros Hn Hm He. constructor.
   - intros g f tail c. cbn [e_item it_need it_toks it_upd]. eexists. split; [|
       replace (2 * length (map bem ml) + 3 + g) with (S (2 * length (map bem ml) + S (S g))) by lia; apply (top_enum _ _ _ _ _ _ He)]. lia.
-  - intros g out nl tail c. cbn [e_item it_fneed it_toks it_text]. eexists. split; [|
+  - intros g out nl tail c. cbn [e_item it_fneed it_toks it_text it_blank]. rewrite andb_true_r. eexists. split; [|
       replace (2 * length (map bem ml) + 4 + g) with (S (S (2 * length (map bem ml) + S (S g)))) by lia; apply fmt_top_enum]. lia.
   - cbn [e_x x_lex e_item it_toks]. unfold enum_toks. cbn [map app]. rewrite (tok_of_Wi nm Hn).
     change (tok_of kwE) with enumT. change (tok_of (T1 123%N kOpenCu)) with openT. change (tok_of NLx) with nlT.
@@ -357,7 +357,7 @@ Definition kwRO : lexeme := W 114%N [101; 97; 100; 111; 110; 108; 121]%N.
 Definition r_item (nm : ident) (fl : list (ident * ident)) : item :=
   let bfl := map (fun f => (ibytes (fst f), ibytes (snd f))) fl in
   {| it_toks := readonlyT :: struct_toks (ibytes nm) bfl; it_need := 2 * length bfl + 3; it_fneed := 2 * length bfl + 5;
-     it_upd := fun f => add_struct f (struct_of_ro (ibytes nm) bfl); it_text := ro_text (ibytes nm) bfl |}.
+     it_upd := fun f => add_struct f (struct_of_ro (ibytes nm) bfl); it_text := ro_text (ibytes nm) bfl; it_blank := true |}.
 Definition r_x (nm : ident) (fl : list (ident * ident)) : xitem :=
   {| x_lex := kwRO :: x_lex (s_x nm fl); x_lay := ([], kwRO) :: (sp, kwS) :: tl (x_lay (s_x nm fl)) |}.
 
@@ -367,7 +367,7 @@ Proof.
   - intros g f tail c. cbn [r_item it_need it_toks it_upd]. eexists. split; [|
       replace (2 * length (map (fun f0 : ident * ident => (ibytes (fst f0), ibytes (snd f0))) fl) + 3 + g)
         with (S (2 * length (map (fun f0 : ident * ident => (ibytes (fst f0), ibytes (snd f0))) fl) + S (S g))) by lia; apply top_struct_ro]. lia.
-  - intros g out nl tail c. cbn [r_item it_fneed it_toks it_text]. eexists. split; [|
+  - intros g out nl tail c. cbn [r_item it_fneed it_toks it_text it_blank]. rewrite andb_true_r. eexists. split; [|
       replace (2 * length (map (fun f0 : ident * ident => (ibytes (fst f0), ibytes (snd f0))) fl) + 5 + g)
         with (S (S (S (2 * length (map (fun f0 : ident * ident => (ibytes (fst f0), ibytes (snd f0))) fl) + S (S g))))) by lia; apply fmt_top_struct_ro]. lia.
   - cbn [r_x x_lex r_item it_toks map]. rewrite (ok_toks _ _ Hs). reflexivity.
